@@ -158,6 +158,25 @@ CLAIMED["C20"] = dict(
     technique="spec-enumerated messages (TLC) + serde round trips validated by TLC",
     ref="DESIGN.md section 6 C20")
 
+CLAIMED["C11"] = dict(
+    text="TLC explores the exchange design (MC_Http: one POST per send, server replies in any order to up to 3 concurrent "
+         "sends through one client, cuts, error statuses, stalls; every send returns) and prints the behaviours; the "
+         "harness replays them and native expansions (every cut offset x 3 framings, 4xx/5xx statuses, fragmentations, "
+         "MiB payloads both ways, IPv6 targets, 3 client configurations) with both real clients against a hand-written "
+         "loopback HTTP server; TLC validates server observations (method, target, headers, Basic credentials, RFC "
+         "reading of the body) and client results against Trace_Http.",
+    note="The HTTP stacks are exercised, not modelled; statuses 200/4xx/5xx only; timeouts 300 ms vs a 5 s stall; loopback only.",
+    technique="TLA+ model checking of the exchange (TLC, safety + liveness) + real sockets + TLC trace validation",
+    ref="DESIGN.md section 6 C11")
+CLAIMED["C12"] = dict(
+    text="TLC enumerates the complete 240-configuration matrix and checks the handshake design (no application data "
+         "unless authenticated or opted out; a supplied PEM/DER root is accepted); every configuration is run with the "
+         "real clients (one harness build per TLS back end) against a loopback rustls server with static fixtures and "
+         "TLC validates result and application octets received against IppTls.Accept.",
+    note="Cryptography not modelled; finite matrix enumerated completely; fixtures valid to 2126.",
+    technique="TLA+ decision model (TLC) + exhaustive configuration matrix on real TLS stacks validated by TLC",
+    ref="DESIGN.md section 6 C12")
+
 NOT_YET = "check not built yet in this round (planned, see DESIGN.md section 6)"
 
 
